@@ -161,7 +161,7 @@ func runProgram(file, traceFile string, maxEvents int, modes []string) (res resu
 		}
 		// the vendored wazero cannot cancel a running module: run it in a goroutine and give up (the whole process
 		// exits after reporting) when it takes far longer than the un-instrumented run
-		limit := 180*time.Second + 60*time.Duration(res.Ms["run0"])*time.Millisecond
+		limit := 300*time.Second + 100*time.Duration(res.Ms["run0"])*time.Millisecond
 		done := make(chan error, 1)
 		go func() {
 			done <- wazero.VerifC11Run(vname, wasm1, fset, mainFunc, tr, hostModuleName, tr.register, tr.atExit)
